@@ -28,6 +28,7 @@ type progOpts struct {
 	readonly   bool                                                 // restart the gateways read-only after setupOps
 	classify   func(s *prog.Step, class string) (kind, sig string)
 	seedOff    int64
+	post       func(steps []*prog.Step, res *lib.Result, idx int) // optional property oracle over the whole program
 }
 
 func wipe(dir string) {
@@ -165,6 +166,9 @@ func runPrograms(a lib.Args, res *lib.Result, po progOpts) error {
 		res.Count(strings.Join(canon, "\n"), nontrivial, "programs:"+po.name)
 		if i < 2 {
 			res.Sample(map[string]interface{}{"program": prog.Describe(steps, len(steps)-1)})
+		}
+		if po.post != nil {
+			po.post(steps, res, i)
 		}
 		for j, s := range steps {
 			class := s.Diff()
